@@ -21,7 +21,6 @@ import (
 	"bufio"
 	"bytes"
 	"fmt"
-	"io"
 	"net"
 	"strconv"
 	"strings"
@@ -49,7 +48,6 @@ type c11RawCase struct {
 	Expect  bool     `json:"expect_100_continue,omitempty"`
 	Headers []string `json:"headers,omitempty"` // further complete header lines ("Name: value"); "X-Huge: <n>" expands to n bytes of value
 	Body    vh.Hex   `json:"body"`
-	KeepBdy bool     `json:"-"`
 
 	ServerGen int64 `json:"server_clientconf_generation"`
 	Cfg       int   `json:"registrar"`
@@ -451,5 +449,3 @@ func TestVerif_C11_httpraw(t *testing.T) {
 		c11RawCheck(rt, rec, e, s, c)
 	})
 }
-
-var _ = io.EOF
